@@ -314,16 +314,154 @@ def rule_kbd(rep: Report, repo: Repo) -> None:
     doc = ast.get_docstring(repo.mod(KBD)) or ''
     rep.check('0x0 = no event' in doc and '0x8 = a key was released' in doc and '0x9 = a key was pressed' in doc, 'C17.KBD', 'docstring',
               'the documented status values are 0x0/0x8/0x9', KBD)
-    init = repo.func(KBD, 'ScriptedKeyEventSource.__init__')
-    srt = [norm(s.value) for s in init.body if isinstance(s, ast.Assign) and norm(s.targets[0]) == 'self.events']
-    rep.check(srt == ['sorted(events, key=lambda event: event.tic)'], 'C17.KBD', 'scripted:stable-sort-by-tic', str(srt), f'{KBD}:{init.lineno}')
-    nd = repo.func(KBD, 'ScriptedKeyEventSource.next_due_event')
-    test = [norm(n.test) for n in ast.walk(nd) if isinstance(n, ast.If)]
-    body = ' ; '.join(norm(s) for n in ast.walk(nd) if isinstance(n, ast.If) for s in n.body)
-    rep.check(test == ['self._next_index < len(self.events) and self.events[self._next_index].tic <= tic']
-              and 'self._next_index += 1' in body and 'return (event.is_down, event.keycode)' in body, 'C17.KBD', 'scripted:due-test',
-              f'{test} -> {body[:80]}', f'{KBD}:{nd.lineno}')
+    _rule_scripted_source(rep, repo)
 
+
+def _by_tic_key(k: Optional[ast.expr]) -> bool:
+    """key=lambda e: e.tic  /  key=attrgetter('tic')"""
+    if isinstance(k, ast.Lambda) and len(k.args.args) == 1 and isinstance(k.body, ast.Attribute) and k.body.attr == 'tic' \
+            and isinstance(k.body.value, ast.Name) and k.body.value.id == k.args.args[0].arg:
+        return True
+    return isinstance(k, ast.Call) and dotted(k.func).split('.')[-1] == 'attrgetter' and len(k.args) == 1 \
+        and isinstance(k.args[0], ast.Constant) and k.args[0].value == 'tic'
+
+
+def _rule_scripted_source(rep: Report, repo: Repo) -> None:
+    """The scripted source replays its events in tic order (stable for equal tics) and hands one out exactly when its tic has been
+    reached. Read as: (1) the container next_due_event consumes holds sorted(<the events given>, key=tic) - directly, or through copies
+    (list / deque / tuple / slice) of an attribute that does; (2) the hand-out is guarded by `<container not exhausted>` and
+    `<head>.tic <= tic`; (3) the head handed out is the one tested, and it is consumed (index advanced / popped from the left) on that
+    path only; the other path returns None. The container may be the sorted list with an index that starts at 0, or a queue."""
+    init = repo.func(KBD, 'ScriptedKeyEventSource.__init__')
+    nd = repo.func(KBD, 'ScriptedKeyEventSource.next_due_event')
+    site_i, site_n = f'{KBD}:{init.lineno} ScriptedKeyEventSource.__init__', f'{KBD}:{nd.lineno} ScriptedKeyEventSource.next_due_event'
+    params = [a.arg for a in init.args.args][1:] + [a.arg for a in init.args.kwonlyargs]
+    # (1) abstract values of the attributes / locals set by __init__, in statement order
+    val: Dict[str, str] = {p_: 'RAW' for p_ in params}
+
+    def absval(e: ast.expr) -> str:
+        if isinstance(e, ast.Constant) and e.value == 0 and not isinstance(e.value, bool):
+            return 'ZERO'
+        if isinstance(e, (ast.Name, ast.Attribute)):
+            return val.get(norm(e), '?')
+        if isinstance(e, ast.Subscript) and isinstance(e.slice, ast.Slice) and e.slice.lower is None and e.slice.upper is None and e.slice.step is None:
+            return absval(e.value)
+        if isinstance(e, ast.Call):
+            fn_ = dotted(e.func)
+            if fn_ == 'sorted' and len(e.args) == 1:
+                kws = {k.arg: k.value for k in e.keywords}
+                rev = kws.get('reverse')
+                if set(kws) <= {'key', 'reverse'} and _by_tic_key(kws.get('key')) and (rev is None or (isinstance(rev, ast.Constant) and not rev.value)) \
+                        and absval(e.args[0]) in ('RAW', 'SORTED'):
+                    return 'SORTED'
+                return '?'
+            if fn_.split('.')[-1] in ('list', 'tuple', 'deque') and len(e.args) == 1 and not e.keywords:
+                return absval(e.args[0])
+            if isinstance(e.func, ast.Attribute) and e.func.attr == 'copy' and not e.args:
+                return absval(e.func.value)
+        return '?'
+    straight = True
+    for st in init.body:
+        if isinstance(st, (ast.Assign, ast.AnnAssign)) and st.value is not None:
+            tg = st.targets if isinstance(st, ast.Assign) else [st.target]
+            v = absval(st.value)
+            for t in tg:
+                val[norm(t)] = v
+        elif isinstance(st, ast.Expr) and isinstance(st.value, ast.Call) and isinstance(st.value.func, ast.Attribute) and st.value.func.attr == 'sort':
+            kws = {k.arg: k.value for k in st.value.keywords}
+            tgt = norm(st.value.func.value)
+            if tgt in params:
+                straight = False                # sorts the caller's list in place
+            val[tgt] = 'SORTED' if set(kws) == {'key'} and _by_tic_key(kws['key']) and val.get(tgt) in ('RAW', 'SORTED') and tgt not in params else '?'
+        elif isinstance(st, ast.Expr) and isinstance(st.value, ast.Constant):
+            continue
+        elif isinstance(st, ast.Pass):
+            continue
+        else:
+            straight = False
+    # (2) / (3) the hand-out path of next_due_event
+    ifs = [n for n in nd.body if isinstance(n, ast.If)]
+    tail = [n for n in nd.body if not isinstance(n, ast.If) and not (isinstance(n, ast.Expr) and isinstance(n.value, ast.Constant))]
+    if len(ifs) != 1 or ifs[0].orelse and not (len(ifs[0].orelse) == 1 and isinstance(ifs[0].orelse[0], ast.Return)):
+        raise AnalysisError(f'C17.KBD: next_due_event is not one guarded hand-out followed by the no-event return ({KBD}:{nd.lineno})')
+    other = (ifs[0].orelse or tail)
+    none_ok = len(other) == 1 and isinstance(other[0], ast.Return) and (other[0].value is None or (isinstance(other[0].value, ast.Constant) and other[0].value.value is None))
+    conj: List[ast.expr] = []
+
+    def flat(e: ast.expr) -> None:
+        if isinstance(e, ast.BoolOp) and isinstance(e.op, ast.And):
+            for x in e.values:
+                flat(x)
+        else:
+            conj.append(e)
+    flat(ifs[0].test)
+    body = list(ifs[0].body)
+    while len(body) == 1 and isinstance(body[0], ast.If) and not body[0].orelse:        # nested guards read as a conjunction
+        flat(body[0].test)
+        body = list(body[0].body)
+    tic_param = nd.args.args[1].arg if len(nd.args.args) > 1 else 'tic'
+    # the returned pair and the event it is taken from
+    ret = next((s_ for s_ in body if isinstance(s_, ast.Return)), None)
+    local: Dict[str, ast.expr] = {}
+    consumed: List[str] = []
+    for s_ in body:
+        if isinstance(s_, ast.Assign) and len(s_.targets) == 1 and isinstance(s_.targets[0], ast.Name):
+            local[s_.targets[0].id] = s_.value
+        elif isinstance(s_, ast.AugAssign) and isinstance(s_.op, ast.Add) and isinstance(s_.value, ast.Constant) and s_.value.value == 1:
+            consumed.append('advance:' + norm(s_.target))
+        elif isinstance(s_, ast.Assign) and len(s_.targets) == 1 and isinstance(s_.value, ast.BinOp) and isinstance(s_.value.op, ast.Add) \
+                and {norm(s_.value.left), norm(s_.value.right)} == {norm(s_.targets[0]), '1'}:
+            consumed.append('advance:' + norm(s_.targets[0]))
+        elif isinstance(s_, ast.Delete) and len(s_.targets) == 1 and isinstance(s_.targets[0], ast.Subscript) and norm(s_.targets[0].slice) == '0':
+            consumed.append('pop:' + norm(s_.targets[0].value))
+        elif isinstance(s_, ast.Expr) and isinstance(s_.value, ast.Call):
+            local['_'] = s_.value
+    if ret is None or not isinstance(ret.value, ast.Tuple) or len(ret.value.elts) != 2:
+        raise AnalysisError(f'C17.KBD: the hand-out path of next_due_event does not return a pair ({KBD}:{nd.lineno})')
+    fields = [(e.attr, e.value) for e in ret.value.elts if isinstance(e, ast.Attribute)]
+    same_event = len(fields) == 2 and norm(fields[0][1]) == norm(fields[1][1])
+    src = fields[0][1] if fields else None
+    if isinstance(src, ast.Name) and src.id in local:
+        src = local[src.id]
+
+    def pop_of(e: Optional[ast.expr]) -> Optional[str]:
+        """the container when e takes its first element out: q.popleft() / q.pop(0)"""
+        if isinstance(e, ast.Call) and isinstance(e.func, ast.Attribute) and not e.keywords:
+            if e.func.attr == 'popleft' and not e.args:
+                return norm(e.func.value)
+            if e.func.attr == 'pop' and len(e.args) == 1 and norm(e.args[0]) == '0':
+                return norm(e.func.value)
+        return None
+    for v_ in list(local.values()):
+        if pop_of(v_):
+            consumed.append('pop:' + str(pop_of(v_)))
+    cont = idx = None
+    if pop_of(src):
+        cont, idx = pop_of(src), '0'
+    elif isinstance(src, ast.Subscript):
+        cont, idx = norm(src.value), norm(src.slice)
+    head = f'{cont}[{idx}]'
+    queue = idx == '0'
+    # the guards, each classified
+    kinds: List[str] = []
+    for c in conj:
+        t = norm(c)
+        if queue and (t == cont or t in (f'len({cont}) > 0', f'len({cont}) != 0', f'len({cont}) >= 1', f'0 < len({cont})', f'1 <= len({cont})')):
+            kinds.append('nonempty')
+        elif not queue and t in (f'{idx} < len({cont})', f'len({cont}) > {idx}', f'{idx} != len({cont})'):
+            kinds.append('nonempty')
+        elif t in (f'{head}.tic <= {tic_param}', f'{tic_param} >= {head}.tic', f'not {head}.tic > {tic_param}', f'not {tic_param} < {head}.tic'):
+            kinds.append('due')
+        else:
+            kinds.append('other:' + t)
+    want_consumed = f'pop:{cont}' if queue else f'advance:{idx}'
+    start_ok = val.get(str(cont)) == 'SORTED' and (queue or val.get(str(idx)) == 'ZERO')
+    rep.check(straight and start_ok, 'C17.KBD', 'scripted:stable-sort-by-tic',
+              f'next_due_event consumes {cont} (position {idx}); after __init__: ' + ', '.join(f'{k}={v}' for k, v in sorted(val.items()) if k.startswith('self.')),
+              site_i, expected='the consumed container holds sorted(events, key=tic) (a stable sort) and the read position starts at its first element')
+    rep.check(same_event and kinds[:1] == ['nonempty'] and sorted(kinds) == ['due', 'nonempty'] and consumed == [want_consumed] and none_ok, 'C17.KBD', 'scripted:due-test',
+              f'guards {kinds}; hands out {head if cont else norm(ret.value)}; consumption {consumed}; other path returns None: {none_ok}', site_n,
+              expected='exactly when the container is not exhausted and head.tic <= tic: hand out the head and consume it once; else None')
 
 BYTE_CODECS = {'raw_unicode_escape', 'latin-1', 'latin1', 'latin_1', 'iso-8859-1', 'iso8859-1', 'l1'}      # code point n <-> byte n for n < 256
 
